@@ -4,7 +4,9 @@ CFG = {
     "props_module": "RpmVerif.Props.C01",
     "required_theorems": ["RpmVerif.C01.package_roundtrip", "RpmVerif.C01.metadata_write_parse", "RpmVerif.C01.metadata_fixpoint",
                           "RpmVerif.C01.header_roundtrip", "RpmVerif.C01.lead_roundtrip",
-                          "RpmVerif.C01.wf_fixpoint", "RpmVerif.C01.cleared_fixpoint"],
+                          "RpmVerif.C01.wf_fixpoint", "RpmVerif.C01.cleared_fixpoint",
+                          "RpmVerif.C01.canon_accepted", "RpmVerif.C01.parse_injective_mod_canon", "RpmVerif.C01.parse_eq_of_canon_eq",
+                          "RpmVerif.C01.roundtrip_exact_iff", "RpmVerif.C01.write_injective"],
     "trivial_branches": ["rejected-eof", "meta-rejected-eof", "openrt-small-rejected-eof"],
     "cleanup_globs": ["work/c01-blobs/*.bin"],
     "rule": "asset + fixture packages (package and metadata-only entry points) and seeded structure-aware packages: arbitrary lead fields, "
